@@ -79,6 +79,8 @@ structure St where
   sawTrailerOK : Bool := false         -- the reader read a decodable trailer with code 0
   trailerSupplied : Bool := false      -- the transport has supplied a trailer item (nothing follows it)
   dropped : Bool := false              -- a decodable message was taken off the body and will never be delivered
+  offered : List Nat := []             -- messages of the SendMsg calls that reached the request pipe, in call order
+  reqWritten : List Nat := []          -- request frames the transport has taken off the pipe (SendMsg returned nil), in order
 deriving DecidableEq, Repr
 
 inductive Act where
@@ -153,7 +155,7 @@ def step (s : St) : Act → Option (St × List Ev)
     else none
   | .tReadReq =>
     match s.cSend with
-    | some _ => some ({ s with cSend := none }, [.ret .cs .ok])
+    | some m => some ({ s with cSend := none, reqWritten := s.reqWritten ++ [m] }, [.ret .cs .ok])
     | none => none
 
   /- the reader's decode loop -/
@@ -233,7 +235,7 @@ def step (s : St) : Act → Option (St × List Ev)
     if s.cSend.isSome then none
     else if s.done || s.wErr then some (s, [.ret .cs .eof])
     else if s.sendClosed || s.pipeClosed then some ({ s with wErr := true }, [.ret .cs .plainErr])
-    else some ({ s with cSend := some m }, [])
+    else some ({ s with cSend := some m, offered := s.offered ++ [m] }, [])
   | .cSendPipeClosed =>
     match s.cSend with
     | some _ => if s.pipeClosed then some ({ s with cSend := none, wErr := true }, [.ret .cs (match s.pipeErr with | some e => e | none => .plainErr)]) else none
